@@ -19,6 +19,60 @@ pub enum It {
 
 static INTERN: Mutex<Option<HashMap<String, &'static str>>> = Mutex::new(None);
 
+/// Watchdog (C07 "scanning always makes progress", C14 "no call deadlocks"): a library call that
+/// does not return is a violation, not a tool time-out. Every call registers itself here; a monitor
+/// thread aborts the process (SIGABRT, which bin/check reports as a VIOLATION with the message
+/// below as its replay information) when one call has been running for longer than the limit.
+/// The limit (VERIF_CALL_LIMIT_S, default 120 s) is five orders of magnitude above what a call on
+/// the generated worlds takes; the `large` sub-command (C17: builds that legitimately take minutes)
+/// never arms it.
+static WATCH: Mutex<Option<HashMap<std::thread::ThreadId, (std::time::Instant, String)>>> = Mutex::new(None);
+static WATCH_ARMED: std::sync::atomic::AtomicBool = std::sync::atomic::AtomicBool::new(false);
+
+pub fn arm_watchdog() {
+    if WATCH_ARMED.swap(true, std::sync::atomic::Ordering::SeqCst) {
+        return;
+    }
+    let limit = std::env::var("VERIF_CALL_LIMIT_S").ok().and_then(|s| s.parse::<u64>().ok()).unwrap_or(120);
+    *WATCH.lock().unwrap() = Some(HashMap::new());
+    std::thread::spawn(move || loop {
+        std::thread::sleep(std::time::Duration::from_millis(500));
+        let g = WATCH.lock().unwrap();
+        if let Some(m) = g.as_ref() {
+            for (start, desc) in m.values() {
+                if start.elapsed().as_secs() >= limit {
+                    eprintln!("HANG: a library call did not return within {limit} s (no progress). process arguments: {:?}. calls of this history, the last one is the call that hangs: {desc}",
+                        std::env::args().collect::<Vec<_>>());
+                    std::process::abort();
+                }
+            }
+        }
+    });
+}
+
+struct WatchGuard(bool);
+impl WatchGuard {
+    fn enter(recent: &std::collections::VecDeque<String>) -> Self {
+        if !WATCH_ARMED.load(std::sync::atomic::Ordering::Relaxed) {
+            return WatchGuard(false);
+        }
+        let desc = recent.iter().cloned().collect::<Vec<_>>().join(" ; ");
+        if let Some(m) = WATCH.lock().unwrap().as_mut() {
+            m.insert(std::thread::current().id(), (std::time::Instant::now(), desc));
+        }
+        WatchGuard(true)
+    }
+}
+impl Drop for WatchGuard {
+    fn drop(&mut self) {
+        if self.0 {
+            if let Some(m) = WATCH.lock().unwrap().as_mut() {
+                m.remove(&std::thread::current().id());
+            }
+        }
+    }
+}
+
 /// Inputs live as long as the process (iterators borrow them); distinct inputs are stored once.
 pub fn intern(s: &str) -> &'static str {
     let mut g = INTERN.lock().unwrap();
@@ -42,6 +96,8 @@ pub struct World<'a> {
     pub log_state: bool,
     /// number of `next` calls made so far (rotation over equivalent public calls)
     pub calls: usize,
+    /// the last calls of this history (what the watchdog reports when a call does not return)
+    pub recent: std::collections::VecDeque<String>,
 }
 
 /// A match as the specification sees it: [token type, start, end]. The other accessors of `Match`
@@ -70,7 +126,7 @@ pub fn panic_msg(e: Box<dyn std::any::Any + Send>) -> String {
 
 impl<'a> World<'a> {
     pub fn new(syms: &'a [char]) -> Self {
-        World { syms, scanners: vec![], twins: vec![], iters: vec![], inputs: vec![], log_state: false, calls: 0 }
+        World { syms, scanners: vec![], twins: vec![], iters: vec![], inputs: vec![], log_state: false, calls: 0, recent: std::collections::VecDeque::new() }
     }
 
     pub fn word(&self, w: &Value) -> String {
@@ -80,7 +136,15 @@ impl<'a> World<'a> {
     /// Runs one call. `cfg_of` resolves a configuration index. `want_pos` says whether a new
     /// iterator is to be wrapped in `WithPositions`.
     pub fn exec(&mut self, ev: &Value, cfg_of: &dyn Fn(u64) -> Option<CfgSpec>, want_pos: bool) -> Value {
+        if WATCH_ARMED.load(std::sync::atomic::Ordering::Relaxed) {
+            if self.recent.len() >= 24 {
+                self.recent.pop_front();
+            }
+            self.recent.push_back(ev.to_string());
+        }
+        let guard = WatchGuard::enter(&self.recent);
         let r = catch_unwind(AssertUnwindSafe(|| self.exec_inner(ev, cfg_of, want_pos)));
+        drop(guard);
         match r {
             Ok(mut v) => {
                 // layer-B binding (MODEL-DRIFT only): the iterator's internal bookkeeping after the call
@@ -167,7 +231,7 @@ impl<'a> World<'a> {
                 let twin: Option<Vec<Value>> = self.twins.get(s).and_then(|t| t.as_ref()).map(|t| t.find_iter(&text).map(|m| tok(&m)).collect());
                 // the mode names and peek_n(2) at the start, of the scanner and of its uncached twin
                 let show = |sc: &Scanner| -> Value {
-                    let names: Vec<String> = (0..).map_while(|k| sc.mode_name(k).map(|n| n.to_string())).collect();
+                    let names: Vec<String> = (0..).map_while(|k| sc.mode_name(k).map(crate::ttmap::abs_name)).collect();
                     let (kind, ms, target): (&str, Vec<Match>, i64) = match sc.find_iter(&text).peek_n(2) {
                         PeekResult::Matches(v) => ("M", v, -1),
                         PeekResult::MatchesReachedEnd(v) => ("E", v, -1),
@@ -302,8 +366,8 @@ impl<'a> World<'a> {
             "modename" => {
                 let k = ev["k"].as_u64().unwrap() as usize;
                 let name = match &self.iters[h.unwrap()] {
-                    It::Plain(f) => f.mode_name(k).map(|s| s.to_string()),
-                    It::Pos(f) => f.mode_name(k).map(|s| s.to_string()),
+                    It::Plain(f) => f.mode_name(k).map(crate::ttmap::abs_name),
+                    It::Pos(f) => f.mode_name(k).map(crate::ttmap::abs_name),
                 };
                 json!({"res": name.map(|n| vec![n]).unwrap_or_default()})
             }
